@@ -1,5 +1,5 @@
 From Coq Require Import ZArith QArith List Bool Lia.
-From GHE Require Import Base.QUtil Model.ObjState.
+From GHE Require Import Base.QUtil gen.Src Model.ObjState.
 Import ListNotations.
 Open Scope Q_scope.
 
@@ -69,3 +69,7 @@ Proof.
   revert c. induction ops as [|o t IH]; intros c; [reflexivity|].
   destruct o; cbn [filter is_setter]; unfold mrun in *; cbn [fold_left]; try apply IH.
 Qed.
+
+(* GHE.size (regenerated assignment): the height left on the object is exactly what the root solver returned *)
+Lemma stored_height_is_solver_result h : size_stored_height h = h.
+Proof. reflexivity. Qed.
